@@ -68,14 +68,16 @@ def discards_evaluated(desc):
     return False
 
 
-def judge_return(ctx, st, algo, bdesc, batch, tracker, stratum, step_desc, which):
+def judge_return(ctx, st, algo, bdesc, batch, tracker, stratum, step_desc, which, every_evaluated_is_kept=False):
     if not st.log or not st.log[-1][1]:
         ctx.violate(f"C14/returned-before-budget-met/{algo}", f"{which}: search() returned although the last budget check answered False ({st.log[-3:]})")
     trues = [i for i, (_, ans) in enumerate(st.log) if ans]
     if trues and trues[0] != len(st.log) - 1:
         ctx.violate(f"C14/kept-running-after-budget-met/{algo}", f"{which}: the budget answered True at check #{trues[0] + 1} but {len(st.log)} checks were made")
     # pure evaluation budget: total in [n, n + batch)
-    if bdesc[0] == "evals" and stratum == "normal" and step_desc is None:
+    # (with a generated step the bound holds as well, provided the step never evaluates individuals it then drops: the new
+    # population has the population size, so at most that many evaluations happen between two checks)
+    if bdesc[0] == "evals" and stratum == "normal" and (step_desc is None or every_evaluated_is_kept):
         n = bdesc[1]
         if not (n <= st.invocations < n + batch):
             ctx.violate(f"C14/total-evaluations/{algo}/{'under' if st.invocations < n else 'over'}",
@@ -98,7 +100,7 @@ def run(ctx):
     if not has_kind(bdesc, "evals"):
         bdesc = ["any", bdesc, ["evals", 1 + H.draw(60)]]
     algo = H.weighted([("rs", 2), ("opo", 2), ("hc", 2), ("gp", 4)])
-    pop = 2 + H.draw(11)
+    pop = 1 + H.draw(12)
     hc_n = 1 + H.draw(12)
     minimize = bool(H.draw(2))
     step_desc = None
@@ -318,7 +320,8 @@ def run(ctx):
                 ctx.log("exception", type(e).__name__)
                 return
             if returned:
-                judge_return(ctx, st, algo, bdesc, batch, tracker, stratum, step_desc, "second-search-same-budget-object" if attempt else "first-search")
+                judge_return(ctx, st, algo, bdesc, batch, tracker, stratum, step_desc, "second-search-same-budget-object" if attempt else "first-search",
+                             every_evaluated_is_kept=model_ok)
     if st.checks >= 2:
         ctx.nontrivial = True
     ctx.stat("budget_checks", st.checks)
